@@ -7,12 +7,13 @@ Correspondence (model ≈ code): the history is executed on the real objects —
 through `Context.render_to_pipe` (→ `Site.render_to_pipe`, `_expand_upa`, error → 4.04/4.02
 conversion) or the legacy `Site.render` — with recording resources that report which instance
 ran, the `uri_path` it saw and the URI `get_request_uri()` reconstructs; the payload of the real
-WKCResource is parsed by a parser of our own.  The same history goes to the Lean model
-(`Site.modifyAt`, `Site.serve`, `Site.links`, `wkcRender`) and the outputs are diffed.
+WKCResource is taken byte for byte.  The same history goes to the Lean model
+(`Site.modifyAt`, `Site.serve`, `Site.links`, `wkcRender`, `linkFormatStr`) and the outputs are diffed.
 
 Oracle (independent reference, shares no code with aiocoap or the model): a dict-based mirror
 of the registrations with a reference router written from the property text, an RFC 3986 / RFC 7252
-§6.4 reader that turns every listed href back into Uri-Path values, and an RFC 6690 filter;
+§6.4 reader that turns every listed href back into Uri-Path values, an RFC 6690 link-format reader written from the
+ABNF (quoted-string with quoted-pairs), and an RFC 6690 filter;
 checks handler identity, stripped path, reconstructed URI, the unfiltered listing as a multiset of
 (path the href names, attributes) and the filtered listing against the links of the unfiltered one
 that match EVERY filter argument.
@@ -29,7 +30,9 @@ RULE = ("histories of 4..30 ops on a root Site: add resource / nested Site (<= 3
         "PathCapable leaf / WKCResource, remove, GET; registration paths of 0..3 components drawn "
         "from a small vocabulary (incl. the empty component and components with URI-reserved, "
         "link-format-delimiter, control and non-ASCII characters) and biased to share prefixes with / "
-        "extend / equal existing keys (nested sites at the empty path, resources at [''] included); "
+        "extend / equal existing keys (nested sites at the empty path, resources at [''] included); link "
+        "descriptions of 0..9 attributes whose values come from a vocabulary or are composed over RFC 6690's "
+        "quoted-string alphabet (backslash, quote, ',', ';', '<', '>', '=', space, TAB, non-ASCII, empty); "
         "request paths derived from registered full paths (as is, "
         "truncated, extended, with '' appended or inserted, one component replaced) or random; "
         "Uri-Path-Abbrev known/unknown/conflicting; /.well-known/core with no query, 1..3 RFC 6690 "
@@ -40,7 +43,11 @@ RULE = ("histories of 4..30 ops on a root Site: add resource / nested Site (<= 3
         "empty component, every filter pattern x attribute kind, every pair and selected triples of "
         "filter arguments selecting overlapping / disjoint subsets, every ASCII character and selected "
         "UTF-8 sequences as a path component (alone, below a nested site, as nested-site key), "
-        "[] / [''] / ['',''] resources x nested site keys [] / ['k'] / ['k','']. Non-trivial: at least one "
+        "[] / [''] / ['',''] resources x nested site keys [] / ['k'] / ['k',''], every ASCII character (alone, "
+        "doubled, first, inside, last) and every backslash/quote string up to length 3 as value of title, of a "
+        "custom attribute and as an rt entry, with other resources before, between and behind. The "
+        "/.well-known/core payload is compared byte for byte with the model and read by an own RFC 6690 reader "
+        "for the oracle. Non-trivial: at least one "
         "request answered by a handler and one registration below a nested site or one 4.04; "
         "distinct by full history.")
 TRUSTED = ["harness link-format parser and fake remote endpoint (harness/props/C17.py)"]
@@ -50,7 +57,11 @@ ASSUMPTIONS = [
     "network-path reference; RFC 7252 §6.4 turns '/' into NO Uri-Path, never into the lone ''): such "
     "registrations are generated and compared model~code, the oracle checks their routing and only "
     "the count and attributes of their links",
-    "attribute names are ASCII; names differing only in case are compared model~code only",
+    "attribute names are ASCII parmnames (RFC 5987 attr-char); names differing only in case are compared "
+    "model~code only",
+    "control characters inside attribute values are written raw by the code and read literally by the oracle's "
+    "reader (RFC 2616 allows them only as quoted-pair, RFC 7230 not at all; no framing depends on them)",
+    "the fake remote has no payload size limit: long listings are not cut into blocks (block-wise: C06)",
 ]
 
 VOCAB = ["a", "b", "c", "ab", "abc", "x", "core", ".well-known", "sensors", "temp", "ä", "日本",
@@ -120,45 +131,82 @@ def case_line(case):
 
 # --------------------------------------------------------------------------- link-format parser
 
+# RFC 5987 §3.2.1 attr-char (parmname = 1*attr-char, RFC 5988 also allows a trailing "*")
+ATTRCHAR = set("ABCDEFGHIJKLMNOPQRSTUVWXYZabcdefghijklmnopqrstuvwxyz0123456789!#$&+-.^_`|~")
+# RFC 6690 §2 ptokenchar
+PTOKENCHAR = set("ABCDEFGHIJKLMNOPQRSTUVWXYZabcdefghijklmnopqrstuvwxyz0123456789"
+                 "!#$%&'()*+-./:<=>?@[]^_`{|}~")
+
+
 def parse_link_format(s):
-    """`<href>;k="v";k,<href>…` with `\\"` escapes inside quoted values → [(href, [(k, v|None)])]"""
+    """Reader for application/link-format written from the ABNF of RFC 6690 §2 (shares nothing with
+    aiocoap's regular expressions or with what its writer happens to escape):
+
+        link-value-list = [ link-value *( "," link-value ) ]
+        link-value      = "<" URI-Reference ">" *( ";" link-param )
+        link-param      = parmname [ "=" ( ptoken / quoted-string ) ]      (the general form)
+        quoted-string   = DQUOTE *( qdtext / quoted-pair ) DQUOTE          (RFC 2616 §2.2)
+        quoted-pair     = "\" CHAR            -- stands for that CHAR, whichever it is
+        qdtext          = any TEXT except DQUOTE (and "\", which always starts a quoted-pair)
+
+    → [(href, [(name, value | None)])]; ValueError when the text is not of that form.  Control
+    characters inside a quoted-string are taken literally (RFC 2616 has them only as quoted-pair,
+    RFC 7230 not at all: no framing depends on them)."""
     links = []
     i, n = 0, len(s)
     while i < n:
         if s[i] != "<":
             raise ValueError(f"expected '<' at {i}")
-        j = s.index(">", i)
+        j = s.find(">", i)
+        if j < 0:
+            raise ValueError(f"unterminated link target at {i}")
         href = s[i + 1:j]
         i = j + 1
         attrs = []
         while i < n and s[i] == ";":
             i += 1
             j = i
-            while j < n and s[j] not in "=;,":
+            while j < n and s[j] in ATTRCHAR:
+                j += 1
+            if j < n and s[j] == "*":
                 j += 1
             key = s[i:j]
+            if not key:
+                raise ValueError(f"parameter name expected at {i}")
             i = j
             if i < n and s[i] == "=":
                 i += 1
-                if i >= n or s[i] != '"':
-                    raise ValueError(f"expected quoted value at {i}")
-                i += 1
-                val = []
-                while True:
-                    if i >= n:
-                        raise ValueError("unterminated quoted value")
-                    if s[i] == "\\" and i + 1 < n and s[i + 1] == '"':
-                        val.append('"')
-                        i += 2
-                    elif s[i] == '"':
-                        i += 1
-                        break
-                    else:
-                        val.append(s[i])
-                        i += 1
-                attrs.append((key, "".join(val)))
+                if i < n and s[i] == '"':
+                    i += 1
+                    val = []
+                    while True:
+                        if i >= n:
+                            raise ValueError("unterminated quoted-string")
+                        c = s[i]
+                        if c == "\\":
+                            if i + 1 >= n:
+                                raise ValueError("unterminated quoted-pair")
+                            val.append(s[i + 1])
+                            i += 2
+                        elif c == '"':
+                            i += 1
+                            break
+                        else:
+                            val.append(c)
+                            i += 1
+                    attrs.append((key, "".join(val)))
+                else:
+                    j = i
+                    while j < n and s[j] in PTOKENCHAR:
+                        j += 1
+                    if j == i:
+                        raise ValueError(f"parameter value expected at {i}")
+                    attrs.append((key, s[i:j]))
+                    i = j
             else:
                 attrs.append((key, None))
+            if i < n and s[i] not in ";,":
+                raise ValueError(f"expected ';' or ',' at {i}")
         links.append((href, attrs))
         if i < n:
             if s[i] != ",":
@@ -181,7 +229,7 @@ class FakeRemote:
     is_multicast = False
     is_multicast_locally = False
     maximum_block_size_exp = 6
-    maximum_payload_size = 1124
+    maximum_payload_size = 1 << 24     # a transport without a size limit: no listing is cut into blocks (C06's topic)
     blockwise_key = ("peer.example",)
     authenticated_claims = ()
 
@@ -341,11 +389,13 @@ def observe(code, cf, payload):
     if code != "2.05":
         return "err:" + code, {"kind": "err", "code": code}
     if cf is not None and int(cf) == 40:
+        # model ~ code: the payload byte for byte; the oracle judges what an RFC 6690 reader makes of it
+        tok = "L:" + (payload.hex() or "-")
         try:
             links = parse_link_format(payload.decode("utf-8"))
         except Exception as e:
-            return "L!unparsable:" + payload.hex(), {"kind": "err", "code": "unparsable " + str(e)}
-        return "L:" + ",".join(enc_link(h, a) for h, a in links), {"kind": "links", "links": links}
+            return tok, {"kind": "unparsable", "why": str(e), "payload": payload.decode("utf-8", "replace")}
+        return tok, {"kind": "links", "links": links}
     try:
         d = json.loads(payload)
         segs, parts = uri_segments(d["uri"])
@@ -367,6 +417,8 @@ async def run_history(aiocoap, case, want_full_listing=True):
                 # the same request without query, for the oracle (not part of the model line)
                 _, o2 = observe(*await imp.get(upa, path, [], entry))
                 o["full"] = o2.get("links")
+                if o2["kind"] == "unparsable":
+                    o["full_unparsable"] = o2
             outs.append(tok)
             obs[i] = o
         else:
@@ -534,6 +586,9 @@ def oracle(case, obs):
         elif t == "G":
             _, upa, path, queries, entry = op
             o = obs[i]
+            if o["kind"] == "unparsable":
+                return (f"GET {path} ?{queries}: the payload is not application/link-format for an RFC 6690 "
+                        f"reader ({o['why']}): {o['payload'][:120]!r}", "wkc-unparsable")
             if o["kind"] == "err":
                 return (f"GET {path} ?{queries} answered {o['code']}", "get-error:" + str(o["code"])[:12])
             if upa is not None:
@@ -589,6 +644,10 @@ def oracle_links(case, root, impl_info, queries, o):
     want = []
     ref_listing(root, (), want)
     full = o.get("full") if queries else o["links"]
+    if full is None and "full_unparsable" in o:
+        u = o["full_unparsable"]
+        return (f"the unfiltered /.well-known/core payload is not application/link-format for an RFC 6690 "
+                f"reader ({u['why']}): {u['payload'][:120]!r}", "wkc-unparsable")
     if full is None:
         return ("unfiltered /.well-known/core did not answer with a link list", "wkc-listing")
     # every visible registered resource is named once, by a target that leads back to its path;
@@ -632,12 +691,26 @@ ATTR_VALUES = {
            "temperature-c", "tempest temp", ""],
     "if": ["sensor", "core.s", "core.s core.a", "s"],
     "ct": ["40", "0 41", "50", "0"],
-    "title": ["kitchen", "k", "Kitchen light", "", "ki", "quoted \"x\"", "a,b;c=d"],
+    "title": ["kitchen", "k", "Kitchen light", "", "ki", "quoted \"x\"", "a,b;c=d",
+              "C:\\", "a\\b", "\\", "\"", "\\\"", "say \"hi\"\\", "</y>;rt=\"z\"", "\",</y>;rt=\"z",
+              "Küche <1>", "日本, €", " "],
     "rel": ["hosts", "self item", "impl-info"],
     "anchor": ["/a", "coap://x/"],
     "sz": ["12", "1200"],
-    "foo": ["bar", "bar baz", "b"],
+    "foo": ["bar", "bar baz", "b", "b\\", "\\b", "b\"", "b\\\\", ";", ",", ">", "<", "=", "ä"],
 }
+# RFC 6690's quoted-string alphabet: what a value is drawn from when it is composed at random
+VALUE_ALPHABET = ["\\", "\\", "\"", "\"", ",", ";", "<", ">", "=", " ", "a", "b", "x", "/", "*", "ä", "€",
+                  "日", "'", "%", "\t"]
+
+
+def gen_value(rng, listy):
+    """an attribute value over the whole alphabet (for rt/if/ct: single-spaced entries)"""
+    def word():
+        return "".join(rng.choice(VALUE_ALPHABET) for _ in range(rng.randrange(0, 6)))
+    if listy:
+        return " ".join(w.replace(" ", "") or "e" for w in (word() for _ in range(rng.choice([1, 1, 2, 3]))))
+    return word()
 
 
 def gen_attrs(rng):
@@ -646,6 +719,8 @@ def gen_attrs(rng):
         if rng.random() < 0.3:
             if rng.random() < 0.06:
                 attrs.append((k, None))
+            elif rng.random() < 0.15:
+                attrs.append((k, gen_value(rng, k in ("rt", "if", "ct"))))
             else:
                 attrs.append((k, rng.choice(ATTR_VALUES[k])))
     if rng.random() < 0.25:
@@ -1138,6 +1213,60 @@ def boundary_escape_cases():
     return cases
 
 
+def boundary_attr_value_cases():
+    """attribute values over RFC 6690's quoted-string alphabet: every ASCII character alone, doubled,
+    at the start, in the middle and at the end of a value, the strings made of backslashes and quotes up to
+    length 3, values that look like link-format themselves, non-ASCII and empty values — as `title`
+    (quoted-string), as a custom attribute (link-extension), as an entry of `rt`, in the description of a
+    root resource, of a nested site's resource and in front of / between / behind other resources; the
+    listing, an exact and a prefix filter on each value"""
+    values = []
+    for c in range(128):
+        ch = chr(c)
+        values += [ch, ch + ch, ch + "y", "x" + ch + "y", "x" + ch]
+    bq = ["\\", '"']
+    for a in bq:
+        for b in bq:
+            values.append("x" + a + b)
+            values.append(a + b + "y")
+            for c in bq:
+                values.append(a + b + c)
+                values.append("x" + a + b + c + "y")
+    values += ["C:\\", "a\\b", "\\\\server\\share\\", 'say "hi"', '"quoted"', '\\"', '"\\', '",</y>;rt="z', '</y>;rt="z"',
+               '";rt="z', ',</y>', ";obs", "a;b=c,d", "<>", "><", "ä", "日本", "\u20ac\\", "\U0001f600\"", "é\\è",
+               "", " ", "  ", " a ", "a  b", "\r\n", "*", "a*", "\\*", '"*']
+    seen, uniq = set(), []
+    for v in values:
+        if v not in seen:
+            seen.add(v)
+            uniq.append(v)
+    cases = []
+    for start in range(0, len(uniq), 6):
+        chunk = uniq[start:start + 6]
+        b = Builder(None)
+        b.add_res([], ["first"], hidden=False, attrs=[("rt", "sentinel")], kind="rec")
+        b.add_wkc()
+        b.add_site([], ["n"])
+        for i, v in enumerate(chunk):
+            b.add_res([], ["t%d" % i], hidden=False, attrs=[("title", v), ("sz", str(i))], kind="rec")
+            b.add_res([["n"]], ["e%d" % i], hidden=False, attrs=[("if", "core.s"), ("ext", v)], kind="rec")
+            if " " not in v:
+                b.add_res([], ["r%d" % i], hidden=False, attrs=[("rt", "a " + v if v else "a"), ("obs", None)],
+                          kind="rec")
+            b.add_res([["n"]], ["s%d" % i], hidden=False, attrs=[("rt", "sentinel")], kind="rec")
+        b.add_res([], ["last"], hidden=False, attrs=[("rt", "sentinel")], kind="rec")
+        b.get(WK, entry="pipe")
+        b.get(WK, queries=["rt=sentinel"], entry="pipe")
+        for i, v in enumerate(chunk):
+            b.get(WK, queries=["title=" + v], entry="pipe")
+            b.get(WK, queries=["ext=" + v[:max(1, len(v) - 1)] + "*"], entry="pipe" if i % 2 else "render")
+            if " " not in v and v:
+                b.get(WK, queries=["rt=" + v, "obs"], entry="pipe")
+        b.get([], upa=0)
+        cases.append(b.case)
+    return cases
+
+
 def boundary_root_spelling_cases():
     """the spellings of a site's root: resources at [] / [''] / ['',''] / ['a'] (every non-empty
     subset) in a nested site registered at [] / ['k'] / ['k',''], with and without root-level
@@ -1175,7 +1304,7 @@ def boundary_root_spelling_cases():
 
 # --------------------------------------------------------------------------- run
 
-def classify(rep, case, outs):
+def classify(rep, case, outs, obs):
     rep.count("ops/case=%s" % min(len(case["ops"]) // 10 * 10, 40))
     depth = 0
     for op in case["ops"]:
@@ -1206,10 +1335,18 @@ def classify(rep, case, outs):
         kind = t.split(":")[0]
         kinds.add(kind)
         rep.count("result=" + kind)
-        if kind == "L":
-            rep.count("listing:links=%s" % min(len([x for x in t[2:].split(",") if x]), 8))
         if kind == "H" and t.split(":")[2] != ".":
             rep.count("hit:leaf-with-remainder")
+    for o in obs.values():
+        if o["kind"] == "links":
+            rep.count("listing:links=%s" % min(len(o["links"]), 8))
+            for _, attrs in o["links"]:
+                for _, v in attrs:
+                    if v is not None and ("\\" in v or '"' in v):
+                        rep.count("listing:value-needs-quoted-pair")
+    for op in case["ops"]:
+        if op[0] == "R" and any(v is not None and ("\\" in v or '"' in v) for _, v in op[5]):
+            rep.count("reg:attr-value-needs-quoted-pair")
     return ("H" in kinds or "L" in kinds) and (depth >= 1 or "404" in kinds)
 
 
@@ -1231,11 +1368,13 @@ def run(env, rep):
         cases.append(c)
         rep.count("source=corpus")
     bt = (boundary_routing_cases() + boundary_upa_cases() + boundary_filter_cases(impl_uri) + boundary_alias_cases()
-          + boundary_multifilter_cases(impl_uri) + boundary_escape_cases() + boundary_root_spelling_cases())
+          + boundary_multifilter_cases(impl_uri) + boundary_escape_cases() + boundary_root_spelling_cases()
+          + boundary_attr_value_cases())
     rep.count("source=boundary", len(bt))
     rep.exhaustive_parts.append(f"routing boundary table ({len(boundary_routing_cases())} histories), Uri-Path-Abbrev table, "
                                 "filter pattern table, all ordered pairs of 16 filter arguments, every ASCII character as "
-                                "path component, and the []/['']/['',''] root-spelling table enumerated in full")
+                                "path component, the []/['']/['',''] root-spelling table, and every ASCII character / all backslash-quote "
+                                "strings up to length 3 as attribute value enumerated in full")
     cases += bt
     n = env.scale(4000, 60000)
     for _ in range(n):
@@ -1247,7 +1386,7 @@ def run(env, rep):
         lines, impl_outs, kept = [], [], []
         for case in cases:
             outs, obs = loop.run_until_complete(run_history(aiocoap, case))
-            nontrivial = classify(rep, case, outs)
+            nontrivial = classify(rep, case, outs, obs)
             rep.case(case, nontrivial=nontrivial, sample_every=400)
             v = oracle(case, obs)
             if v:
@@ -1271,7 +1410,8 @@ def run(env, rep):
                  "hit:leaf-with-remainder", "nesting-depth=3", "filter:prefix", "filter:exact",
                  "entry=render", "entry=pipe", "upa", "query:filters=0", "query:filters=1",
                  "query:filters=2", "query:filters=3", "reg:site-at-empty-path",
-                 "reg:nested-lone-empty-component", "reg:component-needs-escaping"):
+                 "reg:nested-lone-empty-component", "reg:component-needs-escaping",
+                 "reg:attr-value-needs-quoted-pair", "listing:value-needs-quoted-pair"):
         if not rep.hist.get(need):
             raise HarnessError(f"generators produced no case with {need}")
 
